@@ -652,16 +652,30 @@ def b7_equivalence_steps(ctx) -> None:
     g = P.need_method(ISO, "_get_eq_descendant", own=True)
     ctx.analysed(g)
     gp = [x for x in D.param_names(g.node) if x != "self"]
-    both = []
-    for k, nd in enumerate(gp):
-        tab = f"self._rules{k + 1}"
-        pat = PT.find_all(g.node, f"if _E_r.is_equivalence():\n    _M_l.append(_E_r.children[0])")
-        both.append(pat)
-    pats = PT.find_all(g.node, "if _E_r.is_equivalence():\n    _M_l.append(_E_r.children[0])")
-    if len(pats) == 2 and len({b["_E_r"] for _n, b in pats}) == 2 and len({b["_M_l"] for _n, b in pats}) == 2:
-        ctx.ok("B7", "the matcher follows one equivalence step on either side (node, child of its equivalence rule)")
+    # G7 leaves two consecutive equivalence rules whenever the class in between is visible (it
+    # is a child of a real rule); the transport (map_rec) follows such chains one step at a time,
+    # so the matcher has to follow them to the end as well -- F11 followed one step only.
+    loops = [w for w in walk_local(g.node) if isinstance(w, ast.While)]
+    chains = []
+    for w in loops:
+        conds = [norm(t) for t, p in C.flatten_guards([(w.test, True)]) if p]
+        eq = [c for c in conds if c.endswith(".is_equivalence()")]
+        if not eq:
+            continue
+        r = eq[0][: -len(".is_equivalence()")]
+        app = PT.find_all(w, f"_M_l.append({r}.children[0])")
+        adv = [st for st in walk_local(w) for t, v in [PT.assign_value(st)] if isinstance(t, ast.Name) and t.id == r and v is not None and norm(v).startswith("self._rules")]
+        if app and adv:
+            chains.append((r, app[0][1]["_M_l"]))
+    one_step = PT.find_all(g.node, "if _E_r.is_equivalence():\n    _M_l.append(_E_r.children[0])")
+    if len(chains) == 2 and len({c[0] for c in chains}) == 2 and len({c[1] for c in chains}) == 2:
+        ctx.ok("B7", "the matcher follows equivalence rules on either side until a rule that is not one (as the transport does)")
+    elif one_step:
+        ctx.violation("B7", one_step[0][0], "_get_eq_descendant follows a single equivalence step: a specification keeps two consecutive equivalence rules whenever the class in "
+                      "between is also a child of a real rule (it is not folded into a path), and the second one is then compared as if it were a real rule -- isomorphic "
+                      "specifications are rejected, including pairs returned by the parallel finders")
     else:
-        ctx.violation("B7", g.node, "_get_eq_descendant must extend each side's path by rule.children[0] exactly when that side's rule is an equivalence rule",
+        ctx.violation("B7", g.node, "_get_eq_descendant must extend each side's path by rule.children[0] while that side's rule is an equivalence rule",
                       construct=f"{ISO}._get_eq_descendant")
     # final backward map of the codomain rule with the index of the forward map and the index data of this pair
     bm = [c for c in walk_local(f) if isinstance(c, ast.Call) and norm(c.func) == f"{r2}.indexed_backward_map"]
